@@ -20,7 +20,7 @@ from .. import cover, emmon, gen, ref, world
 LEVEL = 'exploration'
 JOBS = {'quick': 4, 'thorough': 16}
 REQUIRED_MONITORS = ('em_shape_contract', 'locality', 'retained_results')
-REQUIRED_CLASSES = ('deformation:small', 'deformation:large', 'displaced:anchor', 'displaced:frame-neighbour',
+REQUIRED_CLASSES = ('deformation:none-or-one-ulp', 'deformation:small', 'deformation:large', 'displaced:anchor', 'displaced:frame-neighbour',
                     'displaced:other', 'displacement:small', 'displacement:far', 'embedded:extrapolate',
                     'geometry:generic', 'geometry:partial-collinear', 'geometry:linear-z', 'argument:same-object-mutated-in-place',
                     'argument:fresh-copy')
@@ -94,7 +94,16 @@ def run_gen(ctx, case):
         for c in range(K):
             frac = 10.0 ** rng.uniform(-2, 0)
             conf = pos + rng.normal(size=pos.shape) * bond * frac
-            if rng.random() < 0.3:
+            if c == 0 and it % 3 == 0:
+                # the "new" conformation is, bit for bit, the construction conformation (zero displacement), or differs
+                # from it in a single coordinate of a single atom by one unit in the last place
+                conf = pos.copy()
+                frac = 0.0
+                if it % 2:
+                    j0 = int(rng.integers(0, n))
+                    conf[j0, int(rng.integers(0, 3))] = np.nextafter(conf[j0, 0], np.inf)
+                ctx.hit('deformation:none-or-one-ulp')
+            elif rng.random() < 0.3:
                 R, t = gen.random_rotation(rng), rng.normal(size=3) * 10
                 conf = conf @ R.T + t
             if not emmon.frames_ok(n, edges, conf) or gen.min_pair_distance(conf) < 1e-4:
@@ -121,7 +130,7 @@ def run_gen(ctx, case):
             ctx.count('evaluations')
             ctx.hit('deformation:' + ('small' if frac < 0.1 else 'large'))
             if len(model.anchors) >= 2:
-                ctx.nontrivial((n, info['geometry'], int(np.log10(frac) * 2), scls))
+                ctx.nontrivial((n, info['geometry'], int(np.log10(frac) * 2) if frac else -99, scls))
             if c > 0 and ctx.tier == 'quick':
                 continue
             # locality: displace every atom in turn
